@@ -129,7 +129,10 @@ pub fn hetero(code: u32, chs: usize, bps: u32, n: usize) -> Vec<i32> {
 }
 pub const KINDS: &[Kind] = &[Kind::Const, Kind::Ramp, Kind::Sine, Kind::AltExt, Kind::Square, Kind::Impulse, Kind::Spikes, Kind::Noise(0), Kind::Noise(1), Kind::Wasted(1), Kind::Wasted(5), Kind::NoisyLow, Kind::Periodic(32), Kind::Periodic(12)];
 
-pub const RATES: &[u32] = &[44100, 0, 1, 8000, 16000, 22050, 24000, 32000, 48000, 88200, 96000, 176400, 192000, 255000, 254999, 65535, 65536, 655350, 655351, 1048575];
+pub const RATES: &[u32] = &[44100, 0, 1, 8000, 16000, 22050, 24000, 32000, 48000, 88200, 96000, 176400, 192000, 255000, 254999, 65535, 65536, 655350, 655351, 1048575,
+    // one rate per residue class the header-coding choice can test (multiple of 1000 / 100 / 10 / none) on each side of the
+    // 8-bit kHz, 16-bit Hz and 16-bit daHz limits
+    1000, 37000, 100000, 256000, 37800, 18900, 50400, 12300, 100, 900, 254900, 44110, 100010, 65540, 12345, 65530, 655340, 655360, 300000, 1000000];
 
 fn mono_sig(bps: u32) -> Sig {
     Sig { rate: 44100, bps, ch: 1 }
